@@ -4168,18 +4168,24 @@ class State:
         def card_key(rank_order: RankOrder, card: Card) -> tuple[int, Suit]:
             return rank_order.index(card.rank), card.suit
 
+        def blind_key(player_index: int) -> tuple[int, int]:
+            if self.player_count == 2:
+                blind_or_straddle = self.blinds_or_straddles[not player_index]
+            else:
+                blind_or_straddle = self.blinds_or_straddles[player_index]
+
+            if blind_or_straddle > 0:
+                return self.bets[player_index], player_index
+            else:
+                return 0, player_index
+
         self.opener_index = None
 
         assert self.street is not None
 
         match self.street.opening:
             case Opening.POSITION:
-                max_bet_index = max(
-                    self.player_indices,
-                    key=lambda i: (
-                        (self.bets[i] * sign(self.blinds_or_straddles[i]), i)
-                    ),
-                )
+                max_bet_index = max(self.player_indices, key=blind_key)
                 self.opener_index = (max_bet_index + 1) % self.player_count
             case Opening.LOW_CARD:
                 min_up_cards = [
